@@ -241,6 +241,15 @@ func laws(sel int, in, got []int64, law func(lsel int, lin []int64, sig string))
 		before := dumps[len(dumps)-1]
 		var cops []int64 // law 103 input: the operations a Commit is about to decide
 		allRefused := false
+		var recorded []int64 // tasks recorded in a statement that is open when a Session.Allocate runs
+		if o.Code == 11 {
+			for sid := int64(1); sid <= 3; sid++ {
+				for _, vo := range w.Stmts[sid].VerifOps() {
+					recorded = append(recorded, sched.ParseID(string(vo.Task.UID)))
+				}
+			}
+			sort.Slice(recorded, func(a, b int) bool { return recorded[a] < recorded[b] })
+		}
 		switch o.Code {
 		case 1, 2:
 			st, nd := taskAt(before, o.A[1])
@@ -288,6 +297,39 @@ func laws(sel int, in, got []int64, law func(lsel int, lin []int64, sig string))
 			tid = o.A[1]
 		case 11, 12, 13:
 			tid = o.A[0]
+		}
+		if o.Code == 11 {
+			// property text, full strength: nothing of an undecided transaction reaches the binder.
+			// KNOWN FINDING: Session.Allocate dispatches every task of the job's Allocated index,
+			// including tasks an open statement placed
+			lin := []int64{int64(len(recorded))}
+			lin = append(lin, recorded...)
+			lin = append(lin, int64(len(ob.newBind)))
+			for _, b := range ob.newBind {
+				lin = append(lin, b[0], b[1])
+			}
+			law(106, lin, "C07-session-allocate-dispatches-open-statement-task")
+		}
+		if (o.Code == 1 || o.Code == 2 || o.Code == 11 || o.Code == 12) && ob.res == 1 {
+			ptid := o.A[0]
+			if o.Code <= 2 {
+				ptid = o.A[1]
+			}
+			st, nd := taskAt(before, ptid)
+			if !(st == sched.SPending && nd == 0 && !onAnyNode(before, ptid)) && st != 0 {
+				// outside the call sites' precondition (task not Pending or already on a node) the
+				// property text still says "a failed operation leaves no trace".  KNOWN FINDING: the
+				// rollback resets the task to Pending / removes the copy the node already held
+				d := append(append([]int64{}, before...), after...)
+				law(107, d, "C07-failed-placement-outside-precondition-not-restored")
+			}
+		}
+		if isGang(ops) && i == len(ops)-1 && o.Code == 11 && ob.res == 1 {
+			// a failed Session.Allocate leaves no trace of the task it was called with.  KNOWN
+			// FINDING: when the refused dispatch is that of another member, the argument stays Allocated
+			lin := []int64{o.A[0], o.A[1]}
+			lin = append(lin, after...)
+			law(108, lin, "C07-session-allocate-error-keeps-argument-allocated")
 		}
 		if isGang(ops) && i == len(ops)-1 && o.Code == 11 {
 			// directed gang family: order-insensitive law of the dispatch loop
@@ -507,6 +549,7 @@ func genGang(r *vh.Rng) ([]sched.NodeSpec, []sched.JobSpec, []sched.TaskSpec, []
 	}
 	prelude := []string{}
 	committed := int64(0)
+	openStmt := int64(0)
 	for k := 0; k < 2; k++ {
 		switch r.Intn(6) {
 		case 0: // Statement.Allocate of a member, discarded
@@ -520,8 +563,15 @@ func genGang(r *vh.Rng) ([]sched.NodeSpec, []sched.JobSpec, []sched.TaskSpec, []
 		case 2: // eviction of the job's running task, discarded
 			ops = append(ops, opT{Code: 3, A: []int64{1, runner}}, opT{Code: 6, A: []int64{1}})
 			prelude = append(prelude, "evict+discard")
+		case 4: // one member is placed by a statement that stays OPEN while the gang completes
+			if openStmt == 0 && committed == 0 && len(members) > 2 {
+				openStmt = members[0]
+				members = members[1:]
+				ops = append(ops, opT{Code: 1, A: []int64{3, openStmt, anyNode()}})
+				prelude = append(prelude, "allocate-left-open")
+			}
 		case 3: // one member goes through a committed statement (Binding before the gang completes)
-			if committed == 0 && len(members) > 2 {
+			if committed == 0 && openStmt == 0 && len(members) > 2 {
 				committed = members[0]
 				members = members[1:]
 				ops = append(ops, opT{Code: 1, A: []int64{3, committed, anyNode()}}, opT{Code: 7, A: []int64{3}})
